@@ -66,6 +66,8 @@ func (o op) String() string {
 		return fmt.Sprintf("update(%s,%s,default=%d)", o.User, verifx.Q(pws[o.Pw]), o.Def)
 	case "setadmin":
 		return fmt.Sprintf("setadmin(%s,%v)", o.User, o.Admin)
+	case "update-iofail", "add-iofail":
+		return fmt.Sprintf("%s(%s) [work area unusable]", o.Kind, o.User)
 	}
 	return fmt.Sprintf("remove(%s)", o.User)
 }
@@ -132,6 +134,9 @@ func allOps() []op {
 			}
 		}
 		ops = append(ops, op{Kind: "setadmin", User: u, Admin: true}, op{Kind: "setadmin", User: u, Admin: false}, op{Kind: "remove", User: u})
+		// operations that fail for an environmental reason (the work area is unusable): they
+		// are part of "any sequence of successful and failed operations" and must change nothing
+		ops = append(ops, op{Kind: "update-iofail", User: u, Pw: 0, Def: sets[0]}, op{Kind: "add-iofail", User: u, Pw: 0, Def: sets[0]})
 	}
 	return ops
 }
@@ -230,6 +235,19 @@ func step(dir string, n *node, o op) *node {
 	case "remove":
 		d.RemoveUser(o.User)
 		delete(m, o.User)
+	case "update-iofail", "add-iofail":
+		// replace the work area by a regular file: creating the temp file fails (also for root)
+		tmp := filepath.Join(dir, ".tmp")
+		os.RemoveAll(tmp)
+		os.WriteFile(tmp, []byte("not a directory"), 0600) //nolint:errcheck
+		if o.Kind == "update-iofail" {
+			err = d.UpdateUser(o.User, pws[o.Pw])
+		} else {
+			err = d.AddUser(o.User, pws[o.Pw], false)
+		}
+		os.Remove(tmp)
+		os.Mkdir(tmp, 0700) //nolint:errcheck
+		expectErr = true
 	}
 	after := time.Now().Unix()
 	if o.Kind == "add" || o.Kind == "update" {
